@@ -227,12 +227,26 @@ class RunConfig(object):
         # (chosen per reference by the caller so that all runs of one
         # reference are asked for the same labelling)
         self.cell_set = force.get('cell_set')
+        # API keyword copy_data_over; directory layout of the inputs: 'flat'
+        # = distinct names in one directory, 'same_base' = every file is
+        # <donor_i>/expression.h5ad (same base name, different directory)
+        self.copy_over = force['copy_over'] if 'copy_over' in force \
+            else (rng.random() < (0.5 if len(self.files) > 1 else 0.15))
+        self.layout = force.get('layout') or (
+            'same_base' if len(self.files) > 1 and rng.random() < 0.4
+            else 'flat')
+        # per-file column order of var (None = the reference's order in every
+        # file); only set by the dedicated var-order runs
+        self.gene_orders = force.get('gene_orders')
 
     def as_dict(self):
         return {'files': self.files, 'encodings': self.encodings,
                 'rows': self.rows, 'n_proc': self.n_proc, 'norm': self.norm,
                 'dtype': self.dtype,
-                'cell_set': getattr(self, 'cell_set', None)}
+                'cell_set': getattr(self, 'cell_set', None),
+                'copy_over': getattr(self, 'copy_over', False),
+                'layout': getattr(self, 'layout', 'flat'),
+                'gene_orders': getattr(self, 'gene_orders', None)}
 
 
 # ---------------------------------------------------------------------------
@@ -260,7 +274,7 @@ class SplitTrace(object):
         orig_spec = self.orig_spec
 
         def spec(**kw):
-            spec_list = [(pathlib.Path(c[0]).name, int(c[1]), int(c[2]))
+            spec_list = [(str(c[0]), int(c[1]), int(c[2]))
                          for c in kw['chunk_specification_list']]
             out = trace_dir / (pathlib.Path(kw['buffer_path']).name + '.json')
             out.write_text(json.dumps(spec_list))
@@ -304,16 +318,38 @@ def write_inputs(d, ref, cfg, with_obs_levels=False):
     paths = []
     anc = ref.ancestors()
     for i, (idx, enc) in enumerate(zip(cfg.files, cfg.encodings)):
-        p = pathlib.Path(d) / part_name(i)
+        p = input_path(d, cfg, i)
+        p.parent.mkdir(exist_ok=True)
         obs_cols = None
         if with_obs_levels:
             obs_cols = {lvl: [anc[ref.label[ref.names[j]]][lvl] for j in idx]
                         for lvl in ref.h}
-        pipeline.write_h5ad(p, M[idx, :].astype(np_dtype),
-                            [ref.names[j] for j in idx], ref.genes,
+        order = gene_order(ref, cfg, i)
+        pipeline.write_h5ad(p, M[idx, :][:, order].astype(np_dtype),
+                            [ref.names[j] for j in idx],
+                            [ref.genes[k] for k in order],
                             encoding=enc, obs_cols=obs_cols)
         paths.append(p)
     return paths
+
+
+def input_path(d, cfg, i):
+    if getattr(cfg, 'layout', 'flat') == 'same_base':
+        return pathlib.Path(d) / ('donor_%s' % 'BADC'[i % 4]) / 'expression.h5ad'
+    return pathlib.Path(d) / part_name(i)
+
+
+def gene_order(ref, cfg, i):
+    """column j of file i holds the reference's gene gene_order[j]"""
+    go = getattr(cfg, 'gene_orders', None)
+    if go is None:
+        return list(range(ref.n_genes))
+    return list(go[i])
+
+
+def var_orders_differ(ref, cfg):
+    go = getattr(cfg, 'gene_orders', None)
+    return go is not None and any(list(o) != list(go[0]) for o in go[1:])
 
 
 def read_stats(path):
@@ -341,7 +377,7 @@ def run_precompute(ref, cfg, d, frontend='list', subset=None):
     tmp = d / 'tmp'
     tmp.mkdir()
     res = {'ok': False, 'err': None, 'stats': None, 'loads': None,
-           'paths': [p.name for p in paths]}
+           'paths': [str(p) for p in paths]}
     with SplitTrace(tdir) as tr:
         with pipeline.quiet():
             try:
@@ -358,12 +394,15 @@ def run_precompute(ref, cfg, d, frontend='list', subset=None):
                         output_path=out_path, rows_at_a_time=cfg.rows,
                         normalization=cfg.norm, tmp_dir=tmp,
                         n_processors=cfg.n_proc,
-                        cell_set=cell_set_of(cfg))
+                        cell_set=cell_set_of(cfg),
+                        copy_data_over=bool(getattr(cfg, 'copy_over',
+                                                    False)))
                 res['ok'] = True
             except Exception as e:   # noqa
                 res['err'] = classify(e)
         res['loads'] = tr.loads()
     res['tmp_left'] = sorted(p.name for p in tmp.iterdir())
+    res['out_exists'] = out_path.exists()
     if res['ok']:
         res['stats'] = read_stats(out_path)
         res['path'] = out_path
@@ -521,12 +560,17 @@ def model_precompute(ctx, ref, cfg, ids, subset=None):
         return tbl, None
     files = []
     for i, idx in enumerate(cfg.files):
+        order = gene_order(ref, cfg, i)
         files.append([i, [[ids.cell[ref.names[j]],
-                           [jrat(x) for x in V[j, :]]] for j in idx]])
-    out = ctx.model('stats.precompute', {
-        'nClusters': len(ref.leaves), 'g': ref.n_genes,
-        'nameToRow': tbl['ok'], 'files': files, 'rows': cfg.rows,
-        'nProc': cfg.n_proc})
+                           [jrat(V[j, k]) for k in order]] for j in idx]])
+    req = {'nClusters': len(ref.leaves), 'g': ref.n_genes,
+           'nameToRow': tbl['ok'], 'files': files, 'rows': cfg.rows,
+           'nProc': cfg.n_proc}
+    if getattr(cfg, 'gene_orders', None) is not None:
+        gid = {g: i for i, g in enumerate(sorted(ref.genes))}
+        req['geneLists'] = [[gid[ref.genes[k]] for k in gene_order(ref, cfg, i)]
+                            for i in range(len(cfg.files))]
+    out = ctx.model('stats.precompute', req)
     return out, tbl['ok']
 
 
@@ -672,6 +716,33 @@ def check_run(ctx, ref, cfg, frontend='list', baseline=None):
     labelled_in_files = any(
         eff[ref.names[j]] is not None for f in cfg.files for j in f)
     ctx.count('cell_set:%s' % (cell_set_of(cfg) is not None))
+    if frontend == 'list':
+        ctx.count('copy_data_over:%s' % bool(getattr(cfg, 'copy_over', False)))
+        ctx.count('layout:%s' % getattr(cfg, 'layout', 'flat'))
+    differ = var_orders_differ(ref, cfg)
+    if getattr(cfg, 'gene_orders', None) is not None:
+        ctx.count('var-order:%s' % ('differs-between-files' if differ
+                                    else 'permuted-alike'))
+    if not res['ok'] and differ and 'gene_names' in (res['err'] or ''):
+        # files with the same genes in different column orders are refused
+        # (the arrays are accumulated column by column): the correct outcome
+        ctx.count('refused:var-order')
+        if res['out_exists']:
+            ctx.violation('C09/precompute/refused-but-file-written',
+                          'the writer refuses the inputs (%s) but leaves a '
+                          'statistics file' % res['err'], detail)
+        if ctx.driver_ok:
+            out, _ = model_precompute(ctx, ref, cfg, ids)
+            if out.get('err') != 'geneMismatch':
+                ctx.disagreements_checked += 1
+                ctx.violation(
+                    'C09/correspondence/precompute/var-order-verdict',
+                    'the writer refuses files whose var order differs, the '
+                    'model says %r' % (out.get('err', 'ok'),),
+                    dict(detail, broken='correspondence CTM.Stats.'
+                                        'precomputeChecked ~ var census'),
+                    found_input=False)
+        return None
     if not res['ok']:
         if labelled_in_files:
             ctx.violation('C09/precompute/crash/' + res['err'].split(':')[0],
@@ -681,7 +752,16 @@ def check_run(ctx, ref, cfg, frontend='list', baseline=None):
     tol = tol_of(cfg)
     # (i) predicate on the implementation: the direct census
     want = census(ref, cfg)
-    probs = check_against_census(stats, want, ref.leaves, ref.genes, tol,
+    genes_exp = list(ref.genes)
+    if getattr(cfg, 'gene_orders', None) is not None and \
+            sorted(stats['col_names']) == sorted(ref.genes):
+        # columns may come in another order: the census is BY GENE NAME
+        out_order = [ref.genes.index(g) for g in stats['col_names']]
+        genes_exp = list(stats['col_names'])
+        want = {leaf: dict(w, **{k: [w[k][j] for j in out_order]
+                                 for k in STAT_KEYS})
+                for leaf, w in want.items()}
+    probs = check_against_census(stats, want, ref.leaves, genes_exp, tol,
                                  ref.n_genes)
     if not probs and stats['taxonomy_tree'] is not None and \
             frontend == 'list':
@@ -736,11 +816,14 @@ def check_run(ctx, ref, cfg, frontend='list', baseline=None):
         tree_cells = set(nm for nm in ref.names if eff[nm] is not None)
         ml = model_loads(ctx, ref, cfg, tree_cells)
         impl_loads = res['loads']
+        il = None
         if impl_loads is not None and None not in impl_loads:
-            name_to_idx = {part_name(i): i
-                           for i in range(len(cfg.files))}
-            il = [[[name_to_idx[c[0]], c[1], c[2]] for c in load]
-                  for load in impl_loads]
+            try:
+                il = [[[file_index_of(res, cfg, c[0]), c[1], c[2]]
+                       for c in load] for load in impl_loads]
+            except KeyError:
+                ctx.count('trace-skipped:staged-copies-not-identifiable')
+        if il is not None:
             ctx.traces += 1
             if 'err' in ml or ml['ok'] != il:
                 ctx.disagreements_checked += 1
@@ -765,6 +848,20 @@ def check_run(ctx, ref, cfg, frontend='list', baseline=None):
     return stats
 
 
+def file_index_of(res, cfg, path_str):
+    """position in data_path_list of the file a chunk was read from; staged
+    copies (copy_data_over) are recognised by the unique base name they are
+    prefixed with, KeyError when that is impossible (equal base names)"""
+    if path_str in res['paths']:
+        return res['paths'].index(path_str)
+    base = pathlib.Path(path_str).name
+    names = [pathlib.Path(q).name for q in res['paths']]
+    hits = [i for i, nm in enumerate(names) if base.startswith(nm)]
+    if len(set(names)) == len(names) and len(hits) == 1:
+        return hits[0]
+    raise KeyError(path_str)
+
+
 def drop_ties(mp, ref, cfg):
     """a count disagreement at an entry whose value sits within 1e-9 of a
     cutoff is a floating-point tie, not a disagreement"""
@@ -775,12 +872,19 @@ def drop_ties(mp, ref, cfg):
             v = float(V[j, g])
             if min(abs(v - 0.0), abs(v - 1.0), abs(v - (1.0 - 1e-6))) < 1e-9:
                 near.add(g)
+    order0 = gene_order(ref, cfg, 0)
+    near = set(j for j, k in enumerate(order0) if k in near)
     return [p for p in mp
             if not (p[0] in ('gt0', 'gt1', 'ge1') and p[2] in near)]
 
 
 def compare_files(a, b, leaves, tol, exact_counts=True):
     probs = []
+    if a['col_names'] != b['col_names'] and \
+            sorted(a['col_names']) == sorted(b['col_names']):
+        # same genes in another column order: compare BY NAME
+        cols = [b['col_names'].index(g) for g in a['col_names']]
+        b = dict(b, **{k: b[k][:, cols] for k in STAT_KEYS})
     for leaf in leaves:
         ra = a['cluster_to_row'][leaf]
         rb = b['cluster_to_row'][leaf]
@@ -1268,6 +1372,10 @@ def run(ctx):
             stats = check_run(ctx, ref, cfg, baseline=baseline)
             if stats is not None and baseline is None:
                 baseline = (stats, cfg)
+        # files whose var lists the genes in another column order: all
+        # alike (accepted, statistics by gene name) or differing (refused)
+        if ref.n_genes >= 2 and len(ref.names) >= 2 and i % 2 == 0:
+            check_var_order(ctx, rng, ref, cell_set, baseline)
         # single-file front end (every cell labelled through obs columns)
         if i % 2 == 0:
             ref2 = copy.copy(ref)
@@ -1289,6 +1397,26 @@ def run(ctx):
         # the name tables that link the file to the later stages (model
         # CTM/Model/StageFiles.lean): rows and gene columns permuted
         stagefiles_util.check_names(ctx, rng)
+
+
+def check_var_order(ctx, rng, ref, cell_set, baseline):
+    n = len(ref.names)
+    files = split_files(rng, n, rng.choice([2, 2, 3]))
+    if len(files) < 2:
+        return
+    base = random_perm(rng, ref.n_genes)
+    if rng.random() < 0.35:
+        orders = [list(base) for _ in files]
+    else:
+        orders = [list(base) for _ in files]
+        k = rng.randrange(1, len(files))
+        other = list(base)
+        while other == list(base):
+            rng.shuffle(other)
+        orders[k] = other
+    cfg = RunConfig(rng, ref, force={'files': files, 'cell_set': cell_set,
+                                     'gene_orders': orders})
+    check_run(ctx, ref, cfg, baseline=baseline)
 
 
 def run_big(ctx, rng):
